@@ -97,17 +97,21 @@ func (c *compiler) write(bb *strings.Builder, i interface{}) {
 	case *time.Time:
 		c.write(bb, *t)
 	case interfaceable:
-		c.write(bb, t.Interface())
+		c.write(bb, printed(func() interface{} { return t.Interface() }))
 	case string, ast.Printable, bool:
 		bb.Write(unsafeGetBytes(template.HTMLEscaper(t)))
 	case template.HTML:
 		bb.Write(unsafeGetBytes(string(t)))
 	case HTMLer:
-		bb.Write(unsafeGetBytes(string(t.HTML())))
+		if h, ok := printed(func() interface{} { return t.HTML() }).(template.HTML); ok {
+			bb.Write(unsafeGetBytes(string(h)))
+		}
 	case uint, uint8, uint16, uint32, uint64, int, int8, int16, int32, int64, float32, float64:
 		bb.Write(unsafeGetBytes(fmt.Sprint(t)))
 	case fmt.Stringer:
-		bb.Write(unsafeGetBytes(template.HTMLEscaper(t.String())))
+		if str, ok := printed(func() interface{} { return t.String() }).(string); ok {
+			bb.Write(unsafeGetBytes(template.HTMLEscaper(str)))
+		}
 	case []string:
 		for _, ii := range t {
 			c.write(bb, ii)
@@ -129,6 +133,19 @@ func (c *compiler) write(bb *strings.Builder, i interface{}) {
 			c.write(bb, ii)
 		}
 	}
+}
+
+// printed calls a value's own printing method (String, HTML, Interface). A value
+// whose method cannot run - it is promoted through a nil embedded pointer, say -
+// prints nothing, like the typed nil pointer it wraps.
+func printed(call func() interface{}) (v interface{}) {
+	defer func() {
+		if r := recover(); r != nil {
+			v = nil
+		}
+	}()
+
+	return call()
 }
 
 func (c *compiler) evalExpression(node ast.Expression) (interface{}, error) {
